@@ -358,6 +358,10 @@ type life2 struct {
 // restart boots the node on the image (db = base ops, then extra ops) / WAL variant and judges it.
 func restart(mode, wl string, dbOps [][]consensus.VerifOp, wal []byte, env string, f *facts, twin *preRun, record bool) (map[string]string, *life2) {
 	out := map[string]string{}
+	// "+rotated": the surviving WAL bytes lie in the rotated file wal.000 and the head file does not exist yet - what
+	// the disk holds when the crash falls right after the group rotated its head (the new head appears with the next write)
+	rotated := strings.HasSuffix(env, "+rotated")
+	env = strings.TrimSuffix(env, "+rotated")
 	rec2 := &consensus.VerifRecorder{Off: !record}
 	var all []consensus.VerifOp
 	for _, seg := range dbOps {
@@ -390,7 +394,7 @@ func restart(mode, wl string, dbOps [][]consensus.VerifOp, wal []byte, env strin
 			l2.cuts = append(l2.cuts, cut{idx: idx, walSynced: synced, walTail: tail, height: h})
 		}
 	}
-	n, err := consensus.VerifBootFull(consensus.VerifFullConfig{Key: valKey, Funded: []common.Address{userAddr}, Archive: mode == "flush", Snapshot: strings.HasSuffix(mode, "+snap"), DB: db2, WalDir: dir, WalImage: wal, Rec: rec2})
+	n, err := consensus.VerifBootFull(consensus.VerifFullConfig{Key: valKey, Funded: []common.Address{userAddr}, Archive: mode == "flush", Snapshot: strings.HasSuffix(mode, "+snap"), DB: db2, WalDir: dir, WalImage: wal, WalRotated: rotated, Rec: rec2})
 	if n != nil {
 		defer n.StopFull()
 	}
@@ -653,6 +657,8 @@ func main() {
 			for _, c := range pr.cuts {
 				jobs = append(jobs, job{pr, c, "synced", c.walSynced, 0, "reoffer"})
 				jobs = append(jobs, job{pr, c, "synced", c.walSynced, 0, "pool-empty"})
+				jobs = append(jobs, job{pr, c, "rotated", c.walSynced, 0, "reoffer+rotated"})
+				jobs = append(jobs, job{pr, c, "rotated", c.walSynced, 0, "pool-empty+rotated"})
 				if len(c.walTail) > len(c.walSynced) {
 					jobs = append(jobs, job{pr, c, "whole", c.walTail, 0, "reoffer"})
 					jobs = append(jobs, job{pr, c, "whole", c.walTail, 0, "pool-empty"})
